@@ -1,4 +1,63 @@
-(* C09 — placeholder until lemmas/Paths.v lands *)
-From PT Require Import Arena.
-Theorem C09_placeholder : True. Proof. exact I. Qed.
-Print Assumptions C09_placeholder.
+(* C09 — paths, common ancestors and node-to-node distances are exact.
+   Statements only; proofs in lemmas/Paths.v.  Model: Arena.v (get_path_from_root, get_common_ancestor),
+   Queries.v (get_distance); spec: Spec.v (rpath) and Paths.v (anc, cpl, path_len, edge_of).
+   Hypotheses: the arena represents the rose tree r (Rep, any mixture of present / absent lengths). *)
+From PT Require Import Arena Spec Queries Paths.
+
+(* the root path lists the ancestors from the root down to the node *)
+Theorem C09_path : forall (L : Type) (t : @arena L) (root : nat) (r : rtree) (x : nat),
+  Rep t None 0 root r -> NoDup (ids r) -> In x (ids r) ->
+  exists p : list nat, get_path_from_root t x = Ok p /\ rpath x r = Some p.
+Proof. exact @path_refines. Qed.
+Print Assumptions C09_path.
+
+(* the reported common ancestor is the deepest shared ancestor *)
+Theorem C09_lca : forall (L : Type) (t : @arena L) (root : nat) (r : rtree) (a b : nat),
+  Rep t None 0 root r -> NoDup (ids r) -> In a (ids r) -> In b (ids r) ->
+  exists c : nat, get_common_ancestor t a b = Ok c /\ anc r c a /\ anc r c b /\
+                  (forall z : nat, anc r z a -> anc r z b -> anc r z c).
+Proof. exact @lca_refines. Qed.
+Print Assumptions C09_lca.
+
+(* edge count = length of the path; length = sum of the branch lengths on it, or absent when one is missing *)
+Theorem C09_dist : forall (L : Type) (O : LenOps L) (t : @arena L) (root : nat) (r : rtree) (a b : nat),
+  Rep t None 0 root r -> NoDup (ids r) -> In a (ids r) -> In b (ids r) ->
+  exists pa pb : list nat, rpath a r = Some pa /\ rpath b r = Some pb /\
+    (let ta := skipn (cpl pa pb) pa in
+     let tb := skipn (cpl pa pb) pb in
+     get_distance O t a b = Ok (path_len O (map (edge_of t) (ta ++ tb)), length ta + length tb)).
+Proof. exact @dist_refines. Qed.
+Print Assumptions C09_dist.
+
+(* ... and rev ta ++ c :: tb IS the unique simple path between a and b in the tree *)
+Theorem C09_tree_path_unique : forall (r : rtree) (a b : nat) (pa pb P : list nat) (c : nat),
+  NoDup (ids r) -> rpath a r = Some pa -> rpath b r = Some pb -> NoDup P -> linked (radj r) P ->
+  (exists m : list nat, P = a :: m) -> (exists m : list nat, P = m ++ [b]) ->
+  nth_error pa (cpl pa pb - 1) = Some c -> P = rev (skipn (cpl pa pb) pa) ++ c :: skipn (cpl pa pb) pb.
+Proof. exact tree_path_unique. Qed.
+Print Assumptions C09_tree_path_unique.
+
+Theorem C09_dist_sym : forall (L : Type) (O : LenOps L),
+  (forall x y z : L, ladd O x (ladd O y z) = ladd O (ladd O x y) z) ->
+  (forall x y : L, ladd O x y = ladd O y x) ->
+  (forall x : L, ladd O (l0 O) x = x) ->
+  forall (t : @arena L) (root : nat) (r : rtree) (a b : nat),
+  Rep t None 0 root r -> NoDup (ids r) -> In a (ids r) -> In b (ids r) ->
+  get_distance O t a b = get_distance O t b a.
+Proof. exact @dist_sym. Qed.
+Print Assumptions C09_dist_sym.
+
+Theorem C09_lca_sym : forall (L : Type) (t : @arena L) (root : nat) (r : rtree) (a b : nat),
+  Rep t None 0 root r -> NoDup (ids r) -> In a (ids r) -> In b (ids r) ->
+  get_common_ancestor t a b = get_common_ancestor t b a.
+Proof. exact @lca_sym. Qed.
+Print Assumptions C09_lca_sym.
+
+Theorem C09_dist_self : forall (L : Type) (O : LenOps L) (t : @arena L) (a : nat),
+  get_distance O t a a = Ok (Some (l0 O), 0).
+Proof. exact @dist_self. Qed.
+Print Assumptions C09_dist_self.
+
+Theorem C09_lca_self : forall (L : Type) (t : @arena L) (a : nat), get_common_ancestor t a a = Ok a.
+Proof. exact @lca_self. Qed.
+Print Assumptions C09_lca_self.
